@@ -635,6 +635,18 @@ def job_noise_grid(tier, rng):
                evaluations=cnt, distinct_nontrivial=cnt - 6, witness=bad, native=dict(confirmed=bad is not None))]
 
 
+def job_mixed_dims(tier, rng):
+    """histories: channels with several (dim_in, dim_out) pairs - including both orderings of the same pair - are converted and applied in ONE process, interleaved and
+    repeated: the run-time contracts of every pair must hold whatever was converted before (memo tables keyed too coarsely, state left behind)."""
+    out = []
+    for din, dout in [(2, 3), (3, 2), (2, 3), (2, 2), (3, 3), (1, 3), (3, 1), (3, 2), (2, 4), (4, 2), (2, 3)]:
+        out.append(job_bounded('quick', rng, din, dout)[0])
+    bad = next((r for r in out if r['verdict'] != 'pass'), None)
+    return [ob(f'{PROP}.runtime_contracts.mixed_dimension_pairs_in_one_process', 'pass' if bad is None else 'refuted', tier='B', backend='native', functions=['numqi.channel._internal (all conversions and applications)'],
+               evaluations=sum(r.get('evaluations', 0) for r in out), distinct_nontrivial=sum(r.get('distinct_nontrivial', 0) for r in out), witness=None if bad is None else bad.get('witness'),
+               native=dict(confirmed=bad is not None), detail='' if bad is None else 'failed for ' + bad['id'])]
+
+
 def jobs(tier):
     sh = SHAPES[tier]
     J = []
@@ -664,6 +676,7 @@ def jobs(tier):
             if tier == 'thorough' or (din + dout) % 2 == 0 or din * dout <= 6:
                 J.append(('job_bounded', dict(din=din, dout=dout)))
     J.append(('job_noise_grid', {}))
+    J.append(('job_mixed_dims', {}))
     return J
 
 
